@@ -41,7 +41,34 @@ NewIds(ss, i, oi, ni) ==
           [] k = "blank" -> <<oi + 1>>
           [] OTHER -> [j \in 1..SegNew(k) |-> 1000 + ni + j])
        \o NewIds(ss, i + 1, oi + SegOld(k), ni + SegNew(k))
+(* the complete operation list (Equal operations included); with Stale the index an operation does not read    *)
+(* its text through is off by one, as the diff library leaves it after compaction                             *)
+RECURSIVE OpsFull(_, _, _, _, _)
+OpsFull(ss, i, oi, ni, stale) ==
+  IF i > Len(ss) THEN <<>>
+  ELSE LET k == ss[i]  d == IF stale THEN 1 ELSE 0 IN
+       (CASE k = "same" -> <<[k |-> "equal", oi |-> oi, ol |-> 1, ni |-> ni, nl |-> 1]>>
+          [] k = "blank" -> <<[k |-> "equal", oi |-> oi, ol |-> 1, ni |-> ni, nl |-> 1],
+                              [k |-> "delete", oi |-> oi + 1, ol |-> 2, ni |-> ni + 1 + d, nl |-> 0]>>
+          [] k = "ins" -> <<[k |-> "insert", oi |-> IF oi > 0 THEN oi - d ELSE oi, ol |-> 0, ni |-> ni, nl |-> 2]>>
+          [] OTHER -> <<[k |-> "replace", oi |-> oi, ol |-> SegOld(k), ni |-> ni, nl |-> SegNew(k)]>>)
+       \o OpsFull(ss, i + 1, oi + SegOld(k), ni + SegNew(k), stale)
 OldIds == [j \in 1..OldLen(segs, 1) |-> j]
+(* design level only (insertions included, which the replayed segment kinds do not produce on their own): evaluated *)
+(* once, in the state of the smallest case                                                                           *)
+DesignSeqs == UNION {[1..n -> SegKinds \cup {"ins"}] : n \in 1..MaxSeg}
+RunOK(ss, stale) ==
+  ApplyJson([j \in 1..OldLen(ss, 1) |-> j], ImplJsonRun(OpsFull(ss, 1, 0, 0, stale), NewIds(ss, 1, 0, 0))) = NewIds(ss, 1, 0, 0)
+DesignReconstructsRun ==
+  (segs = <<"same">> /\ flag = "none") => \A ss \in DesignSeqs, stale \in BOOLEAN : RunOK(ss, stale)
+(* the transcription of the code before the repair does NOT survive stale indices (kept as a witness that the model *)
+(* discriminates): some sequence with an insertion is reconstructed wrongly                                          *)
+NonEqual(ops) == SelectSeq(ops, LAMBDA o : o.k # "equal")
+OldImplBreaksOnStale ==
+  (segs = <<"same">> /\ flag = "none") =>
+     \E ss \in DesignSeqs :
+        ApplyJson([j \in 1..OldLen(ss, 1) |-> j],
+                  ImplJson(NonEqual(OpsFull(ss, 1, 0, 0, TRUE)), [j \in 1..OldLen(ss, 1) |-> j], NewIds(ss, 1, 0, 0), TRUE)) # NewIds(ss, 1, 0, 0)
 DesignReconstructs ==
   ApplyJson(OldIds, ImplJson(Ops(segs, 1, 0, 0), OldIds, NewIds(segs, 1, 0, 0), AllLines)) = NewIds(segs, 1, 0, 0)
 =============================================================================
